@@ -12,7 +12,6 @@ use futures_util::StreamExt as _;
 
 use super::TlsTransportWrapper;
 use crate::client::conn::transport::duplex::DuplexTransport;
-use crate::client::conn::transport::TlsConnectionError;
 use crate::fixtures;
 
 #[derive(Debug, PartialEq, Eq)]
@@ -154,14 +153,10 @@ async fn sni_is_the_uri_host() {
 #[tokio::test]
 async fn no_host_is_an_error() {
     let parts = http::Request::builder().uri("/only/a/path").body(()).unwrap().into_parts().0;
-    fixtures::tls_install_default();
-    let (client, _incoming) = crate::stream::duplex::pair();
-    let mut transport = TlsTransportWrapper::new(
-        DuplexTransport::new(1024, client),
-        Arc::new(fixtures::tls_client_config()),
-    );
-    let r = tower::Service::call(&mut transport, parts).await;
-    assert!(matches!(r, Err(TlsConnectionError::NoDomain)), "{:?}", r.map(|_| ()));
+    let (caller, wire) = drive(parts).await;
+    println!("caller={caller:?} wire={wire:?}");
+    assert_eq!(caller, Caller::Error("NoDomain".into()));
+    assert_eq!(wire, Wire::NoConnection);
 }
 
 /// tls.never_plain / tls.dials_valid [C12]: a valid host is dialled and the first thing the peer sees is
